@@ -555,6 +555,9 @@ class IteratorQueue(IterableQueue[_ValueT]):
   def stop_with(self, other: types.Stoppable) -> None:
     """Also stops `other` when this queue is stopped."""
     self._stopped_with.append(other)
+    if self.exception is not None:
+      # Already failed, e.g., on the very first element.
+      other.maybe_stop()
 
   @classmethod
   def _default_queue(cls, maxsize: int) -> _QueueLike[_ValueT]:
@@ -775,6 +778,11 @@ class IteratorQueue(IterableQueue[_ValueT]):
         logging.debug(
             'chainable: %s', f'"{self.name}" enqueue done, notify all'
         )
+    if self.exception is not None:
+      # A failed stream is over: what feeds its enqueuers is stopped as well,
+      # its threads are otherwise blocked on their full queue for good.
+      for other in self._stopped_with:
+        other.maybe_stop()
 
   def maybe_stop(self, exc: Exception | None = None):
     """Stops the producer and optionally terminates the consumer.
